@@ -20,7 +20,7 @@ RULE = (
 )
 REQUIRED = ["pairs_checked", "mappings_validated", "maximum_checked", "direction_inverse_checked",
             "first_graph_larger", "optimum_smaller_than_pattern", "disconnected_pairs", "mtg_checked",
-            "noninteger_order_pairs", "disconnected_optimum_beats_edge_bound"]
+            "noninteger_order_pairs", "disconnected_optimum_beats_edge_bound", "mcs_mol_checked"]
 ASSUMPTIONS = [
     "common subgraph = common induced subgraph (bond present iff present, equal order), as the statement says",
     "edge orders compared numerically (float equality), node labels by the configured attributes",
@@ -145,6 +145,22 @@ def check_pair(ctx, G1, G2, tag, key, node_attrs=("element",)):
                 sizes = {len(x) for x in ms}
                 if (opt == 0 and ms) or (opt > 0 and sizes != {opt}):
                     bad("not-maximum", f"MTG.MCSMatcher(mcs=True) returned sizes {sorted(sizes)}; maximum is {opt}", impl="MTG")
+    # molecule-level mode: whole connected components matched onto isomorphic components (G1 -> G2)
+    for name, mk in (("Matcher", lambda: M1(node_attrs=list(node_attrs), node_defaults=defaults)),
+                     ("MTG", lambda: M2(node_label_names=list(node_attrs), node_label_defaults=defaults))):
+        m = mk()
+        m.find_common_subgraph(G1, G2, mcs_mol=True)
+        ms = m.get_mappings("G1_to_G2") if name == "Matcher" else m.get_mappings()
+        ctx.count("mcs_mol_checked")
+        for mp in ms:
+            why = valid(mp, G1, G2, node_ok, edge_ok)
+            if why:
+                bad("invalid-mapping", f"{name}.MCSMatcher(mcs_mol=True): mapping {mp} is not a common induced subgraph: {why}", impl=name, mcs_mol=True)
+                break
+            comps = [set(c) for c in nx.connected_components(G1)]
+            if any(0 < len(c & set(mp)) < len(c) for c in comps):
+                bad("mcs-mol-partial-component", f"{name}.MCSMatcher(mcs_mol=True) maps only part of a connected component: {mp}", impl=name, mcs_mol=True)
+                break
     if WG.gdigest(G1) != d1 or WG.gdigest(G2) != d2:
         bad("input-mutated", "matcher modified an input graph")
     nontrivial = (2 <= opt < min(len(G1), len(G2))) or disc
